@@ -15,7 +15,10 @@ EXPLANATION = (
   "touched, so a failure at any sub-step is covered by an undo already on the list (R2); every "
   "schema doc action runs under a fresh schema clone that the failure handler reinstates and "
   "rebuilds from (R3); formula evaluation undoes side effects on error and read-only evaluation "
-  "always undoes (R4); only the enumerated calls run outside the guarded region (R5). Not decided: "
+  "always undoes (R4); only the enumerated calls run outside the guarded region (R5); before the bundle-level rollback "
+  "the calculated changes still pending (engine-side map and calc summary) are turned into actions "
+  "so that the rollback reverts them too, and after it pending recalculation of data columns is "
+  "dropped (R6). Not decided: "
   "that every conceivable sub-step failure is recoverable by the recorded inverse.")
 
 RECORD_ACTIONS = ("BulkAddRecord", "BulkRemoveRecord", "BulkUpdateRecord", "ReplaceTableData")
@@ -27,7 +30,7 @@ def check(run, repo, tier):
   # helper keep their place
   import os
   _HERE = os.path.dirname(os.path.abspath(__file__))
-  decide(run, repo, [r1_rollback, r2_undo_first, r3_schema_restore, r4_formula_side_effects, r5_uncovered],
+  decide(run, repo, [r1_rollback, r2_undo_first, r3_schema_restore, r4_formula_side_effects, r5_uncovered, r6_rollback_calc_state],
          anchors_of(os.path.join(_HERE, "c04.py"), os.path.join(_HERE, "c01.py"), os.path.join(_HERE, "_h_E.py"), os.path.join(_HERE, "../events.py")))
 
 
@@ -442,6 +445,141 @@ def r5_uncovered(run, w):
              nontrivial=False)
 
 
+def _forgets_data_recalcs(w, fn, flow, nid):
+  """Node nid of fn deletes a recompute_map entry for columns that are not formula columns: a
+  `del <x>.recompute_map[...]` / `.recompute_map.pop(...)` whose conditions are "the column is not
+  a formula column" plus existence tests only. True / False / None (not such a deletion)."""
+  n = fn.cfg.nodes[nid]
+  is_del = n.kind == "stmt" and isinstance(n.stmt, ast.Delete) and \
+      any(isinstance(t, ast.Subscript) and endswith(cname(fn, t.value) or "", "recompute_map")
+          for t in n.stmt.targets)
+  is_pop = any(endswith(cname(fn, c), "recompute_map.pop") for c in calls_in(n.exprs))
+  if not (is_del or is_pop):
+    return None
+  not_formula = False
+  heads = [m.id for m in fn.cfg.nodes if m.kind in ("for", "while") and nid in flow.loop_body(m.id)]
+  if not heads:
+    return None
+  # innermost enclosing loop: conditions per entry of the map
+  head = min(heads, key=lambda h_: len(flow.loop_body(h_)))
+  for (t, pol, i) in flow.facts_inside(nid, head):
+    tt = flow.resolve(t, i)[0] if isinstance(t, ast.Name) else t
+    if isinstance(tt, ast.Call) and isinstance(tt.func, ast.Attribute) and \
+        tt.func.attr == "is_formula":
+      if pol is not False:
+        return False
+      not_formula = True
+    elif isinstance(tt, ast.Call) and isinstance(tt.func, ast.Attribute) and \
+        tt.func.attr in ("has_column", "has_formula", "get"):
+      continue      # existence tests (a table / column looked up with .get())
+    elif isinstance(tt, ast.Compare) and len(tt.ops) == 1 and \
+        isinstance(tt.ops[0], (ast.Is, ast.In)):
+      continue      # existence tests: `col is not None`, `col_id in table.all_columns`
+    elif isinstance(t, ast.Name):
+      continue      # `if table:` / `if col:`
+    else:
+      return False
+  return not_formula
+
+
+def r6_rollback_calc_state(run, w):
+  R6 = run.rule("C04-R6", "apply_user_actions' failure handler: pending calculated changes are "
+                "flushed (engine map, then calc summary) before the rollback, and pending "
+                "recalculation of data columns is dropped after it", floor=3)
+  from .c02 import _is_flusher
+  from ._h_E import callgraph, own_helper
+  fn = w.fn("engine.Engine.apply_user_actions")
+  cfg = fn.cfg
+  flow = Flow(fn)
+  eng = w.repo.cls("engine.Engine")
+  # the handler: the catch-all handler of the try that applies the user actions
+  undo_all = {n.id for (n, c, nm) in calls_E(fn) if endswith(nm, "_undo_to_checkpoint")}
+  handlers = []
+  for t in ast.walk(fn.node):
+    if isinstance(t, ast.Try):
+      for h in t.handlers:
+        if _catch_all(h):
+          hn = [n.id for n in cfg.nodes if n.kind == "handler" and n.stmt is h]
+          inside = {id(x) for s_ in h.body for x in ast.walk(s_)}
+          undo_h = {u for u in undo_all if id(cfg.nodes[u].stmt) in inside}
+          if hn and undo_h:
+            handlers.append((h, hn[0], undo_h))
+  if not handlers:
+    raise AnalysisError("apply_user_actions: failure handler with the rollback call not found")
+  flushers = {m.name for m in eng.methods.values() if _is_flusher(w, m)}
+  one_level = set(flushers)
+  for m in eng.methods.values():
+    if m.name in one_level:
+      continue
+    f_ = w.fn_of(m)
+    ns = nodes_calling_E(f_, lambda c, nm, f: nm is not None and nm.startswith("self.") and
+                         nm.split(".")[-1] in flushers)
+    if ns and f_.cfg.dominated_by(f_.cfg.exit.id, ns):
+      one_level.add(m.name)
+  cg = callgraph(w)
+  def reaches_convert(c, depth=2):
+    """the call converts the calc summary's deltas into actions"""
+    todo = [(t, depth) for t in cg.resolve(fn, c)]
+    seen = set()
+    while todo:
+      t, d = todo.pop()
+      if t.qualname in seen:
+        continue
+      seen.add(t.qualname)
+      tf = w.fn_of(t)
+      for (n2, c2, nm2) in calls_E(tf):
+        if endswith(nm2, "convert_deltas_to_actions"):
+          return True
+        if d > 0:
+          todo.extend((t2, d - 1) for t2 in cg.resolve(tf, c2))
+    return False
+  eng_flush = {n.id for (n, c, nm) in calls_E(fn)
+               if nm is not None and nm.startswith("self.") and nm.count(".") == 1 and
+               nm.split(".")[-1] in one_level}
+  sum_flush = {n.id for (n, c, nm) in calls_E(fn)
+               if endswith(nm, "out_actions.flush_calc_changes") or
+               endswith(nm, "convert_deltas_to_actions") or
+               (nm is not None and "flush_calc_changes" in nm and reaches_convert(c))}
+  # forgetting the data-column recalcs: in place, or through an engine method that does it
+  forget = set()
+  for n in cfg.nodes:
+    if _forgets_data_recalcs(w, fn, flow, n.id) is True:
+      # written in place: passing the loop over the map is what matters (which entries qualify
+      # was just checked)
+      heads_ = [m.id for m in cfg.nodes if m.kind in ("for", "while") and
+                n.id in flow.loop_body(m.id)]
+      forget.add(max(heads_, key=lambda h_: len(flow.loop_body(h_))) if heads_ else n.id)
+  for (n, c, nm) in calls_E(fn):
+    h_ = own_helper(w, fn, c)
+    if h_ is None:
+      continue
+    hf = w.fn_of(h_)
+    hflow = Flow(hf)
+    verdicts = [_forgets_data_recalcs(w, hf, hflow, k.id) for k in hf.cfg.nodes]
+    if True in verdicts and False not in verdicts:
+      forget.add(n.id)
+  for (h, hn, undo_h) in handlers:
+    for u in sorted(undo_h):
+      before = cfg.reach({hn}, removed=set())
+      ok_e = bool(eng_flush) and u not in cfg.reach({hn}, removed=eng_flush)
+      run.ob(R6, fn.qualname, "handler: engine-side flush of _changes_map before the rollback",
+             "formula results written in mid-bundle are recorded, so the rollback restores the "
+             "cells they changed", ok_e, fi=fn.fi, node=h, missing=not eng_flush)
+      ok_s = bool(sum_flush) and u not in cfg.reach({hn}, removed=sum_flush)
+      # ... in that order: what the engine-side flush adds to the summary must still be converted
+      late = [s_ for s_ in sum_flush if s_ in cfg.reach({hn}, removed={u})]
+      ok_s = ok_s and any(s_ not in cfg.reach({hn}, removed=eng_flush) for s_ in late)
+      run.ob(R6, fn.qualname, "handler: out_actions.flush_calc_changes() before the rollback, "
+             "after the engine-side flush",
+             "calculated changes of the failed bundle become undo actions that the rollback "
+             "replays", ok_s, fi=fn.fi, node=h, missing=not sum_flush)
+      ok_f = bool(forget) and cfg.postdominated_by(u, forget,
+                                                  exits={cfg.exit.id, cfg.raise_exit.id})
+      run.ob(R6, fn.qualname, "handler: drop pending recalculation of data columns after the "
+             "rollback", "reverted trigger-formula inputs do not leave data columns due to be "
+             "recalculated by the next bundle", ok_f, fi=fn.fi, node=h, missing=not forget)
+
+
 D = "sandbox/grist/docactions.py"
 EN = "sandbox/grist/engine.py"
 VARIANTS = [
@@ -488,11 +626,30 @@ VARIANTS = [
    """    except ValueError as e:
       # Save full exception info, so that we can rethrow accurately even if undo also fails.""", "C04-R1"),
   ("undo-only-if-schema", EN,
-   """      log.info("Failed to apply useractions; reverting: %r", e)
-      self._undo_to_checkpoint(checkpoint)""",
-   """      log.info("Failed to apply useractions; reverting: %r", e)
+   """      self.out_actions.flush_calc_changes()
+      self._undo_to_checkpoint(checkpoint)
+""",
+   """      self.out_actions.flush_calc_changes()
       if not self._schema_updated:
-        self._undo_to_checkpoint(checkpoint)""", "C04-R1"),
+        self._undo_to_checkpoint(checkpoint)
+""", "C04-R1"),
+  ("rollback-no-engine-flush", EN,
+   "      self._flush_changes()\n      self.out_actions.flush_calc_changes()\n      self._undo_to_checkpoint(checkpoint)",
+   "      self.out_actions.flush_calc_changes()\n      self._undo_to_checkpoint(checkpoint)", "C04-R6"),
+  ("rollback-no-summary-flush", EN,
+   "      self._flush_changes()\n      self.out_actions.flush_calc_changes()\n      self._undo_to_checkpoint(checkpoint)",
+   "      self._flush_changes()\n      self._undo_to_checkpoint(checkpoint)", "C04-R6"),
+  ("rollback-flush-after-undo", EN,
+   "      self._flush_changes()\n      self.out_actions.flush_calc_changes()\n      self._undo_to_checkpoint(checkpoint)",
+   "      self._undo_to_checkpoint(checkpoint)\n      self._flush_changes()\n      self.out_actions.flush_calc_changes()", "C04-R6"),
+  ("rollback-summary-flush-before-engine-flush", EN,
+   "      self._flush_changes()\n      self.out_actions.flush_calc_changes()\n      self._undo_to_checkpoint(checkpoint)",
+   "      self.out_actions.flush_calc_changes()\n      self._flush_changes()\n      self._undo_to_checkpoint(checkpoint)", "C04-R6"),
+  ("rollback-keeps-data-column-recalcs", EN,
+   "      self._forget_data_column_recalcs()\n", "      pass\n", "C04-R6"),
+  ("forget-recalcs-of-all-columns", EN,
+   "      if col is not None and not col.is_formula():\n        del self.recompute_map[node]",
+   "      if col is not None:\n        del self.recompute_map[node]", "C04-R6"),
   ("checkpoint-inside-loop", EN,
    """    checkpoint = self._get_undo_checkpoint()
     try:
